@@ -88,6 +88,10 @@ def calls_any_deep(ctx, body, names, depth=0):
             c = ctx.facts.bodies.get(fn['path'])
             if c is not None and c is not body and mir.private_helper(c) and calls_any_deep(ctx, c, names, depth + 1):
                 return True
+    for key in body.callable_refs():
+        c = ctx.facts.bodies.get(key)
+        if c is not None and c is not body and (mir.private_helper(c) or c.j.get('def_kind') == 'Closure') and calls_any_deep(ctx, c, names, depth + 1):
+            return True
     return False
 
 
